@@ -10,6 +10,8 @@ if grep -rnE '\b(Admitted|admit|Axiom|Parameter|Conjecture|Admit Obligations)\b|
 fi
 ( cd coq && coq_makefile -f _CoqProject -o Makefile >/dev/null 2>&1 && timeout 3000 make -j16 )
 ./driver/build.sh
-( cd harness && cp /repo/go.sum . 2>/dev/null || true; mkdir -p bin && go build -tags verif -o bin/h ./cmd/h )
+( cd harness && cp /repo/go.sum . 2>/dev/null || true; mkdir -p bin && go build -tags verif -o bin/h ./cmd/h && go build -o bin/xlate ./cmd/xlate )
+# the translated tables (rewritten by every C12 / C13 check) and their instance theorems
+mkdir -p coq/gen && ./harness/bin/xlate /repo coq/gen || true
 mkdir -p evidence replays
 echo "setup ok"
